@@ -8,10 +8,11 @@ from suite import Batch
 
 ENVS = [
     {},
-    {"FRUGAL_MAX_INLINE_DEPTH": "2"},
-    {"FRUGAL_MAX_INLINE_DEPTH": "3", "FRUGAL_MAX_INLINE_IL_SIZE": "257"},
-    {"FRUGAL_MAX_INLINE_DEPTH": "1000", "FRUGAL_MAX_INLINE_IL_SIZE": "50000"},
-    {"FRUGAL_MAX_INLINE_DEPTH": "0x10", "FRUGAL_MAX_INLINE_IL_SIZE": "0x1000"},
+    {"FRUGAL_MAX_INLINE_DEPTH": "0x10", "FRUGAL_MAX_INLINE_IL_SIZE": "0x1000"},       # hexadecimal spelling
+    {"FRUGAL_MAX_INLINE_DEPTH": "2"},                                                # smallest valid depth
+    {"FRUGAL_MAX_INLINE_DEPTH": "0b101", "FRUGAL_MAX_INLINE_IL_SIZE": "60_000"},     # binary, digit separators
+    {"FRUGAL_MAX_INLINE_DEPTH": "3", "FRUGAL_MAX_INLINE_IL_SIZE": "257"},            # smallest valid IL size
+    {"FRUGAL_MAX_INLINE_DEPTH": "1000", "FRUGAL_MAX_INLINE_IL_SIZE": "0o2000"},      # octal
     {"FRUGAL_MAX_INLINE_IL_SIZE": "1000000"},
 ]
 LEGACY = ["Pretouch", "PretouchOpts", "PretouchValue", "NoJIT", "SetMaxInlineDepth", "SetMaxInlineILSize", "GetStats"]
@@ -37,8 +38,40 @@ def run17(prop, tier, seed, work):
                                {"id": 2, "key": "2", "req": "default", "t": {"k": "i32", "ptr": False, "gotype": "uint32"}, "nocopy": False,
                                 "name": list(b"F2"), "rawtag": 'frugal:"2,default"', "opaque": True}])
         uf["BadP"]["invalid"] = True
-        names = [s for s in sorted(uf.keys()) if s != "BadP"]
+        # private cyclic graphs that reach an unsupported member: BA{*BB,*Bd}, BB{*BA}, BC{*BB}
+        ncyc = 6
+        for c in range(ncyc):
+            bad = {"id": 2, "key": "2", "req": "default", "t": {"k": "i32", "ptr": False, "gotype": "uint32"}, "nocopy": False,
+                   "name": list(b"F2"), "rawtag": 'frugal:"2,default"', "opaque": True}
+            uf["Bd%d" % c] = U.struct([U.field(1, "default", U.T("i32")), bad])
+            uf["BA%d" % c] = U.struct([U.field(1, "default", U.ST("BB%d" % c, True)), U.field(2, "default", U.ST("Bd%d" % c, True))])
+            uf["BB%d" % c] = U.struct([U.field(1, "default", U.ST("BA%d" % c, True))])
+            uf["BC%d" % c] = U.struct([U.field(1, "default", U.ST("BB%d" % c, True))])
+            for x in ("Bd", "BA", "BB", "BC"):
+                uf["%s%d" % (x, c)]["invalid"] = True
+        # a type with nocopy fields: the views must stay views whatever NoJIT / the options say
+        uf["NCv"] = U.struct([U.field(1, "default", U.T("string"), nocopy=True), U.field(2, "default", U.T("binary"), nocopy=True),
+                              U.field(3, "default", U.T("string")), U.field(4, "optional", U.T("string", True), nocopy=True)])
+        U.with_defaults({k2: v2 for k2, v2 in uf.items() if not v2.get("invalid")})
+        names = [s for s in sorted(uf.keys()) if not uf[s].get("invalid") and s != "NCv"]
         scen = []
+        for c in range(ncyc):
+            calls = [["Pretouch", "BA"], ["PretouchOpts", "BA"], ["PretouchValue", "BB"], ["Pretouch", "Bd"], ["NoJIT", "BA"], ["PretouchValue", "BA"]][c]
+            steps = [{"op": "legacy", "call": calls[0], "ty": "%s%d" % (calls[1], c), "arg": 1},
+                     {"op": "reject", "ty": "BC%d" % c, "entry": ["encode", "decode", "size"][c % 3], "arg": "ptr", "class": "pretouched-cycle", "repeat": 2},
+                     {"op": "legacy", "call": "Pretouch", "ty": "BC%d" % c, "arg": 0},
+                     {"op": "reject", "ty": "BA%d" % c, "entry": "encode", "arg": "ptr", "class": "pretouched-cycle", "repeat": 1},
+                     {"op": "reject", "ty": "BC%d" % c, "entry": "encode", "arg": "val", "class": "pretouched-cycle", "repeat": 1}]
+            sid = "C17-e%d-cycle-%d" % (ei, c)
+            scen.append({"sid": sid, "prop": prop, "vals": [], "steps": steps, "tags": ["cycle"], "dkey": sid})
+        # nocopy views after each legacy control
+        ncmsg = [11, 0, 1, 0, 0, 0, 3, 97, 98, 99, 11, 0, 2, 0, 0, 0, 2, 1, 2, 11, 0, 3, 0, 0, 0, 2, 120, 121, 11, 0, 4, 0, 0, 0, 4, 119, 120, 121, 122, 0]
+        for c, call in enumerate(LEGACY):
+            steps = [{"op": "legacy", "call": call, "ty": "NCv", "arg": 1},
+                     {"op": "decode", "ty": "NCv", "in": ncmsg, "dest": "fresh"}, {"op": "walk", "objs": [1]},
+                     {"op": "overwrite", "obj": 1, "byte": 255}, {"op": "recheck", "obj": 1, "after": "overwrite"}]
+            sid = "C17-e%d-nocopy-%s" % (ei, call)
+            scen.append({"sid": sid, "prop": "C14", "vals": [], "steps": steps, "tags": ["nocopy"], "dkey": sid})
         k = 0
         for s in names:
             vs = list(U.struct_variants(s, uf, [0, 1, 2], [0, 1, 5]))
@@ -69,7 +102,7 @@ def run17(prop, tier, seed, work):
                 sid = "C17-e%d-%s-%s-%d" % (ei, s, lbl, k)
                 scen.append({"sid": sid, "prop": prop, "vals": [v], "steps": steps, "tags": tags, "dkey": sid})
         batches.append(Batch("env%d" % ei, uf, scen, env=env))
-    suite.run_batches(res, work, batches, want_props={"C17", "C01", "C02", "C04", "C16", "C03"})
+    suite.run_batches(res, work, batches, want_props={"C17", "C01", "C02", "C04", "C16", "C03", "C13", "C14", "C06"})
     res.extra["environments"] = ENVS
     return suite.finish(res, RULE17, ASSUME17)
 
